@@ -66,6 +66,15 @@ Definition check_gen (strict : bool) (c : case) : bool :=
 Definition check_case := check_gen false.
 Definition check_case_old := check_gen true.
 
+(* as check_case, but false also when the dataset is outside the fragment *)
+Definition check_strict (c : case) : bool :=
+  let '(ds, exc, os) := c in
+  match read_skel ds, exc with
+  | ROk fs, None => fields_match fs os
+  | RErr e, Some e' => errk_eqb e e'
+  | _, _ => false
+  end.
+
 (* is the case inside the modelled fragment (so that check_case says something) *)
 Definition in_fragment (c : case) : bool :=
   let '(ds, _, _) := c in
